@@ -1,17 +1,23 @@
 package c13
 
 import (
+	"bytes"
 	"context"
 	"fmt"
+	"io"
+	"net/http"
 	"os"
+	"path/filepath"
 	"sync"
 	"time"
 
 	"github.com/superfly/litefs"
+	lfshttp "github.com/superfly/litefs/http"
 
 	"lfsverif/internal/cluster"
 	"lfsverif/internal/common"
 	"lfsverif/internal/hist"
+	"lfsverif/internal/lfs"
 )
 
 func commitOn(c *common.Ctx, r *common.Rand, n *cluster.Node, k int) error {
@@ -81,6 +87,32 @@ func primaryChange(c *common.Ctx, r *common.Rand) error {
 	}
 	c.Evaluations++
 	c.Distinct("primary-change-while-halted")
+	// the holder's commit is still on its way to the node that granted the lock: that node is not primary any more
+	if !p.Store.IsPrimary() && pdb.VerifHaltLockID() == 21 {
+		im, _ := lfs.ReadImage(filepath.Dir(pdb.DatabasePath()))
+		if im != nil && len(im.Pages) > 0 {
+			pt0, pc0 := pos(p)
+			tgt := uint32(len(im.Pages))
+			pg := lfs.MakePage(im.PageSize, tgt, 616161, tgt, false)
+			nim := im.Clone()
+			nim.Pages[tgt-1] = pg
+			body := buildLTX(uint32(im.PageSize), tgt, pt0+1, pc0, nim.Checksum(), map[uint32][]byte{tgt: pg})
+			req, _ := http.NewRequest("POST", fmt.Sprintf("%s/tx?name=%s&lockID=21", p.Server.URL(), dbName), bytes.NewReader(body))
+			req.Header.Set(lfshttp.HeaderNodeID, litefs.FormatNodeID(rn.Store.ID()))
+			code := 0
+			if resp, err := http.DefaultClient.Do(req); err == nil {
+				code = resp.StatusCode
+				_, _ = io.Copy(io.Discard, resp.Body)
+				resp.Body.Close()
+			}
+			pt1, pc1 := pos(p)
+			c.Evaluations++
+			if pt1 != pt0 || pc1 != pc0 || (code >= 200 && code < 300) {
+				c.Violate("C13:primary-change:forward-to-former-primary", fmt.Sprintf("the node that granted the halt lock is no longer primary; a forwarded transaction from the holder was answered %d and moved it from (%d,%016x) to (%d,%016x)", code, pt0, pc0, pt1, pc1), rep)
+				return nil
+			}
+		}
+	}
 	// the holder never releases; the lock is overdue at t0 + ttl at the latest
 	for pdb.VerifHaltLockID() != 0 && time.Since(t0) < ttl+2*time.Second {
 		time.Sleep(5 * time.Millisecond)
@@ -167,6 +199,47 @@ func repeatedAcquire(c *common.Ctx, r *common.Rand) error {
 		c.Violate("C13:repeated-acquire:refused", fmt.Sprintf("two acquire requests with the same lock id, both waiting for a local writer: answers %v (after %s) and %v (after %s); the same lock is expected twice", out[0].err, out[0].d.Round(time.Millisecond), out[1].err, out[1].d.Round(time.Millisecond)), rep)
 	case out[0].hl.ID != out[1].hl.ID || out[0].hl.Pos != out[1].hl.Pos:
 		c.Violate("C13:repeated-acquire:different", fmt.Sprintf("two acquire requests with the same lock id got different locks: %+v and %+v", *out[0].hl, *out[1].hl), rep)
+	}
+	if id := pdb.VerifHaltLockID(); id != 0 {
+		pdb.ReleaseHaltLock(context.Background(), id)
+	}
+	// an acquire request that arrives while a local transaction is committing waits for it; the lock it is given
+	// carries the position after that transaction - the position the holder starts writing from
+	h := hist.NewOn(c, r.Fork(), hist.Config{PageSize: 512}, p.Store, p.Exits, dbName, nil, 0, false)
+	if im, err := lfs.ReadImage(filepath.Dir(pdb.DatabasePath())); err == nil {
+		h = hist.NewOn(c, r.Fork(), hist.Config{PageSize: im.PageSize}, p.Store, p.Exits, dbName, im, uint64(pdb.Pos().TXID), false)
+	}
+	var hl *litefs.HaltLock
+	var herr error
+	done := make(chan struct{})
+	h.Pager.BeforeCommit = func() {
+		h.Pager.BeforeCommit = nil
+		go func() {
+			defer close(done)
+			hl, herr = pdb.AcquireHaltLock(context.Background(), 41)
+		}()
+		time.Sleep(60 * time.Millisecond) // the request is now waiting for the write lock
+	}
+	before := pdb.Pos()
+	for tries := 0; tries < 300; tries++ {
+		st := h.GenStep()
+		if st.Op != "rtx" {
+			continue
+		}
+		st.Outcome, st.ToWAL, st.Spill = 0, false, 0
+		h.Exec(st)
+		break
+	}
+	select {
+	case <-done:
+		c.Evaluations++
+		c.Distinct("acquire-during-local-commit")
+		after := pdb.Pos()
+		rep2 := map[string]any{"kind": "halt-acquire-during-commit"}
+		if herr == nil && after.TXID == before.TXID+1 && hl.Pos != after {
+			c.Violate("C13:acquire-during-commit:position", fmt.Sprintf("a halt lock requested while a local transaction was committing (%s -> %s) was granted with position %s: the holder would start writing from there, not from the primary's position", before, after, hl.Pos), rep2)
+		}
+	case <-time.After(3 * time.Second):
 	}
 	if id := pdb.VerifHaltLockID(); id != 0 {
 		pdb.ReleaseHaltLock(context.Background(), id)
